@@ -312,6 +312,22 @@ func (sc *serverConn) checkFrameWithStream(fr *FrameHeader) error {
 	return nil
 }
 
+// forward hands a frame to the stream loop. It reports false, having released
+// the frame, when the stream loop has gone: the loop ends on a connection error
+// while the peer may have any number of frames already on their way, and a bare
+// send then blocks for good once the queue is full, with nothing left to read
+// it. ServeConn never returned, not even after the peer had disconnected.
+func (sc *serverConn) forward(fr *FrameHeader) bool {
+	select {
+	case sc.reader <- fr:
+		return true
+	case <-sc.handlerStop:
+		ReleaseFrameHeader(fr)
+
+		return false
+	}
+}
+
 func (sc *serverConn) readLoop() (err error) {
 	if verifOn {
 		defer vRLExit(sc)
@@ -392,7 +408,10 @@ func (sc *serverConn) readLoop() (err error) {
 			if verifOn {
 				vRLFwd(sc, fr)
 			}
-			sc.reader <- fr
+			if !sc.forward(fr) {
+				return errConnClosed
+			}
+
 			continue
 		}
 
@@ -407,7 +426,10 @@ func (sc *serverConn) readLoop() (err error) {
 				if verifOn {
 					vRLFwd(sc, fr)
 				}
-				sc.reader <- fr
+				if !sc.forward(fr) {
+					return errConnClosed
+				}
+
 				continue
 			}
 		case FrameWindowUpdate:
@@ -422,7 +444,10 @@ func (sc *serverConn) readLoop() (err error) {
 			if verifOn {
 				vRLFwd(sc, fr)
 			}
-			sc.reader <- fr
+			if !sc.forward(fr) {
+				return errConnClosed
+			}
+
 			continue
 		case FramePing:
 			ping := fr.Body().(*Ping)
